@@ -408,6 +408,11 @@ def close_histories(case, w, data, index, res, only):
                         out += vs
                         closed = True
                         res.fault('close')
+                        # the caller owns the storage again and reuses it: whatever a later read returns must not come
+                        # from the file (a read that needs the file has to raise once it is closed)
+                        junk = random.Random(case['seed'] + cp).randbytes(len(data))
+                        st.fs.files['w.tdms'][:] = junk
+                        res.fault('storage-reused-after-close')
                     if a is None:
                         break
                     try:
